@@ -571,8 +571,14 @@ func (fr *frame) get(ex *Exec, v ssa.Value) Val {
 	case *ssa.Global:
 		p := ex.globals[x]
 		if p == nil {
-			// global of a package that is not interpreted: lazily zero
-			z := ex.zero(x.Type().(*types.Pointer).Elem())
+			// global of a package that is not interpreted: a named reference for the
+			// models that understand it (unicode range tables), else the zero value
+			var z Val
+			if x.Pkg != nil && x.Pkg.Pkg.Path() == "unicode" {
+				z = StdRef{Name: "unicode." + x.Name()}
+			} else {
+				z = ex.zero(x.Type().(*types.Pointer).Elem())
+			}
 			p = &z
 			ex.globals[x] = p
 		}
